@@ -347,6 +347,7 @@ func extractC13() {
 		{"martianhttp.Modifier", "martianhttp/martianhttp.go", "Modifier", six},
 		{"fifo.Group", "fifo/fifo_group.go", "Group", six},
 		{"filter.Filter", "filter/filter.go", "Filter", six},
+		{"priority.Group", "priority/priority_group.go", "Group", []string{"ModifyRequest", "ModifyResponse"}},
 		{"status.Verifier", "status/status_verifier.go", "Verifier", ress},
 		{"header.Verifier", "header/header_verifier.go", "verifier", six},
 		{"method.Verifier", "method/method_verifier.go", "verifier", reqs},
